@@ -17,6 +17,7 @@ Driver for C01. Requests (fields separated by ` | `):
   `mm | <F>`                            → bit per stored entry: `F.matches ValSem.std`
   `cls | <F>`                           → `<safe 0|1> <plain 0|1>`
   `consts`                              → `<thresSearch> <thresExists> <thresSubstr>`
+  `repmode 0|1|2`                       → `ok`   representation of stored id sets: as sent / all sparse / all compressed
 -/
 open Kanidm Kanidm.Proto Kanidm.Filter
 
@@ -25,8 +26,10 @@ structure St where
   assoc : List (Nat × List (Nat × List Val))
   tbls : List (Nat × IType)
   rows : List (Nat × IType × Val × List Nat × Bool)
+  /-- 0 = representation flags as sent with the rows, 1 = every stored set sparse, 2 = every one compressed -/
+  repMode : Nat
 
-def St.init : St := ⟨⟨[], fun _ => Entry.ofList []⟩, [], [], []⟩
+def St.init : St := ⟨⟨[], fun _ => Entry.ofList []⟩, [], [], [], 0⟩
 
 def fields (line : String) : List String :=
   (line.splitOn "|").map (fun s => s.trimAscii.toString)
@@ -47,6 +50,7 @@ def St.idx (st : St) : Idx := fun a t k =>
   else none
 
 def St.rep (st : St) : Rep := fun a t k =>
+  if st.repMode == 1 then false else if st.repMode == 2 then true else
   match st.rows.find? (fun r => r.1 == a && r.2.1 == t && r.2.2.1 == k) with
   | some r => r.2.2.2.2
   | none => false
@@ -117,6 +121,7 @@ def handle (st : St) (line : String) : St × String :=
     match tokens hd with
     | ["sound"] => (st, checkSound st)
     | ["consts"] => (st, s!"{thresSearch} {thresExists} {thresSubstr}")
+    | ["repmode", m] => ({ st with repMode := m.toNat?.getD 0 }, "ok")
     | _ => (st, "bad-op")
   | [hd, x] =>
     match tokens hd with
